@@ -502,7 +502,7 @@ def build_control(reg, common, RECV_PRE, DATA_MOD):
             "old(join(self.control_frame_data)) == old(self.autoPingPending), self.autoPingPending is None and "
             "self.autoPingTimeoutCall is None and "
             "implies(old(self.autoPingTimeoutCall) is not None, not old(self.autoPingTimeoutCall).active) and "
-            "implies(self.autoPingInterval > 0, %s))" % (CF, PING_TIMER),
+            "implies(self.autoPingInterval != 0, %s))" % (CF, PING_TIMER),
             "implies(%s.opcode == 10 and (old(self.autoPingPending) is None or "
             "old(join(self.control_frame_data)) != old(self.autoPingPending)), "
             "self.autoPingTimeoutCall is old(self.autoPingTimeoutCall) and self.autoPingPending is old(self.autoPingPending))" % CF,
@@ -522,8 +522,8 @@ def build_control(reg, common, RECV_PRE, DATA_MOD):
             "self.autoPingTimeoutCall is None and not old(self.autoPingTimeoutCall).active and self.autoPingPending is None",
             "implies(old(self.autoPingPendingCall) is not None, not old(self.autoPingPendingCall).active)",
             # pings keep being scheduled at the configured interval
-            "implies(self.autoPingInterval > 0, %s)" % PING_TIMER,
-            "implies(not (self.autoPingInterval > 0), self.autoPingPendingCall is None)",
+            "implies(self.autoPingInterval != 0, %s)" % PING_TIMER,
+            "implies(self.autoPingInterval == 0, self.autoPingPendingCall is None)",
             "len(ghost.pongs_received) == old(len(ghost.pongs_received))"], **common)
 
     # ---------------------------------------------------------------- onFrameEnd
@@ -561,3 +561,51 @@ def build_control(reg, common, RECV_PRE, DATA_MOD):
             "implies(old(self.failedByMe), len(ghost.delivered) == old(len(ghost.delivered)))",
             "implies(old(%s.opcode) > 7, len(ghost.delivered) == old(len(ghost.delivered)))" % CF,
         ], **common)
+    build_process_data(reg, common, RECV_PRE, DATA_MOD)
+
+
+def build_process_data(reg, common, RECV_PRE, DATA_MOD):
+    D = "old(self.data)"
+    HDR_OK = ("rfc_header_ok(%s[0], %s[1], self.factory.isServer, self.requireMaskedClientFrames, "
+              "self.acceptMaskedServerFrames, self._perMessageCompress is not None, old(self.inside_message))" % (D, D))
+    COMPLETE = "(len(%s) >= 2 and len(%s) >= header_len(%s[1]))" % (D, D, D)
+    IS_DATA = "(%s[0] %% 16 <= 7)" % D
+    SIZE_BAD = ("size_bad((old(self.message_data_total_length) if old(self.inside_message) else 0), payload_len(%s), "
+                "self.maxMessagePayloadSize, self.maxFramePayloadSize)" % D)
+    VIOLATION = "(len(%s) >= 2 and (not %s or (%s and not rfc_extlen_ok(%s))))" % (D, HDR_OK, COMPLETE, D)
+    PD_MOD = sorted(set(DATA_MOD + ["self.data", "self.current_frame", "self.current_frame_masker"]))
+    reg.contract(
+        WSP + ".processData", name=WSP + ".processData[header]", props=["C02", "C16", "C01"], params=dict(S), returns="bool",
+        requires=RECV_PRE + ["self.current_frame is None", "self.state == 3 and not self.failedByMe",
+                             "implies(self.inside_message, self.message_data is not None)",
+                             "self._perMessageCompress is None"],
+        modifies=PD_MOD,
+        ensures=INV + [
+            MONO,
+            # ---- C02: the connection is failed iff the header violates RFC 6455 (for every pair of header octets, every
+            #      receiver configuration, every extended length) -- or a configured size limit (C16)
+            "self.failedByMe == (%s or (%s and not %s and %s and %s))" % (VIOLATION, COMPLETE, VIOLATION, IS_DATA, SIZE_BAD),
+            "implies(%s and self.failByDrop, result is False and self.state == 0 and not self.wasClean)" % VIOLATION,
+            "implies(%s and not self.failByDrop, ghost.close_frames == 1 and ghost.last_close_payload[0:2] == be16(1002) and "
+            "(self.state == 2 or self.state == 0))" % VIOLATION,
+            # ---- C16: an over-limit frame is refused with 1009 as soon as its header is complete; none of its payload
+            #      has been consumed or buffered at that point
+            "implies(%s and not %s and %s and %s and not self.failByDrop, ghost.close_frames == 1 and "
+            "ghost.last_close_payload[0:2] == be16(1009) and self.frame_data is not None and len(self.frame_data) == 0)"
+            % (COMPLETE, VIOLATION, IS_DATA, SIZE_BAD),
+            # ---- need more data: nothing consumed, nothing changed
+            "implies(not %s and not %s, result is False and self.data == old(self.data) and self.current_frame is None "
+            "and self.state == 3)" % (COMPLETE, VIOLATION),
+            # ---- complete valid header: exactly the header is consumed and decoded (RFC 6455 5.2)
+            "implies(%s and not %s, self.current_frame is not None and self.data == %s[header_len(%s[1]):] and "
+            "self.current_frame.opcode == %s[0] %% 16 and self.current_frame.fin == (%s[0] // 128 == 1) and "
+            "self.current_frame.rsv == (%s[0] // 16) %% 8 and self.current_frame.length == payload_len(%s))"
+            % (COMPLETE, VIOLATION, D, D, D, D, D, D),
+            "implies(%s and not %s and %s[1] // 128 == 1, self.current_frame.mask == "
+            "%s[header_len(%s[1]) - 4:header_len(%s[1])])" % (COMPLETE, VIOLATION, D, D, D, D),
+            "implies(%s and not %s, self.current_frame_masker._ptr == 0 and self.current_frame_masker._null == "
+            "(not (%s[1] // 128 == 1 and payload_len(%s) > 0 and self.applyMask)))" % (COMPLETE, VIOLATION, D, D),
+            "implies(%s and not %s and not self.failedByMe, result == (payload_len(%s) == 0 or len(self.data) > 0))"
+            % (COMPLETE, VIOLATION, D),
+        ],
+        raises={}, **common)
